@@ -74,6 +74,10 @@ CHECKS = {
    text="Exhaustive nested-loop enumerations on the plain protocol package (encode/decode identity over boundary products for all 20 command/result types, README offsets, decode/encode identity on defined bytes under all single- and in-field two-byte variations, text parser under every chunking of its own output, text rendering of every result code) plus text-vs-binary LOCK/UNLOCK equivalence on a full node for key/id strings of every length.",
    note="Trusted: the layout table of defined bytes (self-checked against Decode), per-field independence assumption, the independently computed key normalisation.",
    technique="bounded exhaustive input enumeration (all field-boundary products, all byte variations, all chunkings) on the implementation"),
+ "C18": dict(level="exploration", design="4/C18",
+   text="Exhaustive product of connection lifetimes (protocol, INIT, 0..3 wills, close cause, close instant relative to the queued request's timeout, reconnect before/after the late reply) on a full node with an observer connection; wills exactly once in order and not before the close, holds stay, queued request ends, nothing misrouted, node drains to zero.",
+   note="Trusted: instrumenter+runtime+vnet; default schedule in handlers; three close instants.",
+   technique="bounded exhaustive enumeration of fault/lifetime sequences on the implementation under the deterministic runtime"),
 }
 NA_DEFAULT = "check not built yet in this round (planned: see DESIGN.md section 4)"
 
